@@ -124,6 +124,10 @@ def run_trace(rng, spec, nops, kinds=None, oracles=("xref", "sync", "ctx"), extr
             # reaction *= k: Core.imul
             modelled = True
             line_op = {"op": "imul", "r": op["r"], "k": op["k"]}
+        if op["op"] == "slim_optimize" or (op["op"] in ("rcopy", "radd") and all(op.get(k) is None or op[k] in ex.model.reactions for k in ("r", "r2"))):
+            # calls that only look at the model: Core.observe (nothing changes, nothing is recorded)
+            modelled = True
+            line_op = {"op": "observe"}
         depth_before = ex.depth
         err = ex.apply(op)
         probs = []
